@@ -128,7 +128,8 @@ def _file_vps(content):
 class C40(Check):
     id = "C40"
     prop_file = "theories/Properties/Properties_C40.v"
-    theorems = ("C40_flat_map", "C40_flat_bindings_in_range", "C40_flat_bindings_disjoint", "C40_flat_bindings_inside_cpuset", "C40_hwloc_map",
+    theorems = ("C40_flat_map", "C40_flat_bindings_in_range", "C40_flat_bindings_disjoint", "C40_flat_bindings_inside_cpuset", "C40_select_core_allowed_or_unbound",
+                "C40_flat_bindings_never_escape", "C40_hwloc_map",
                 "C40_flat_strings",
                 "C40_malformed_falls_back_to_flat", "C40_unreadable_file_falls_back_to_flat",
                 "C40_rr_refuted", "C40_rr_never_a_map", "C40_file_refuted", "C40_file_never_a_map",
@@ -166,7 +167,8 @@ class C40(Check):
             "start;end;step with missing/invalid parts, masks around bit R); pinit: the user path through parsec_init with "
             "PARSEC_MCA_runtime_vpmap; cinit nb sing cpus: the same path in a child restricted by sched_setaffinity to a cpuset with "
             "holes (single-cpu holes, wide holes, several holes, first cpu not 0), observing es->core_id and the real affinity "
-            "of every thread; hw S C nb sing / phw S C nb: the hwloc map on synthetic S-socket x C-core machines, every nb in "
+            "of every thread, also oversubscribed (runtime_num_cores 1.5x / 2x the allowed cores, singlify >0 and -1) on "
+            "cpusets that are not a prefix of the machine; hw S C nb sing / phw S C nb: the hwloc map on synthetic S-socket x C-core machines, every nb in "
             "1..S*C+2, directly and through parsec_init. Non-trivial = everything except the plain 'flat'/NULL strings; distinct = distinct case text")
     trusted = ("harness/h_vpmap.c (see level_note); glibc prints '(null)' for a NULL %s argument (part of the modelled behaviour)",)
     assumptions = ("one processing unit per core and cpu numbers = core numbers on the test machine (cinit cases are generated only "
@@ -424,6 +426,23 @@ class C40(Check):
                     cpus = span
                 out.append("cinit %d %d %s" % (r.pick([0, 0, r.range(1, k), k, k + 2]), r.pick([0, 0, 1, -1]),
                                               ",".join(str(c) for c in cpus)))
+        # --- oversubscribed requests (runtime_num_cores above the allowed cores, 1.5x and 2x) on cpusets that are not a
+        # prefix of the machine, late (>0) and early (-1) singlification: the fallback of parsec_select_vpmap_thread_core
+        # (singlify 0 is left out: the candidate masks are infinite and the selection walks them to the end of int)
+        over = [("12,13,14,15", 6, 1), ("12,13,14,15", 8, 2), ("12,13,14,15", 6, -1), ("2,3,5", 6, 1), ("9,11", 3, 1),
+                ("4,5,6,7", 8, 1), ("1,3,5,7", 6, 1), ("10,11,13,14", 8, -1), ("6,7", 4, 1), ("3,4,6,9,12", 10, 1)]
+        for cpus, nc, sing in (over[:6] if q else over):
+            if all(int(c) in avail for c in cpus.split(",")):
+                out.append("cinit %d %d %s %d" % (nc, sing, cpus, nc))
+        for _ in range(3 if q else 40):
+            hi = max(avail) if avail else 0
+            if hi < 7:
+                break
+            k = r.range(2, 5)
+            cpus = sorted(r.shuffle(range(2, hi + 1))[:k])
+            nc = r.pick([k + (k + 1) // 2, 2 * k])
+            if all(c in avail for c in cpus):
+                out.append("cinit %d %d %s %d" % (r.pick([nc, 0]), r.pick([1, 1, 2, -1]), ",".join(str(c) for c in cpus), nc))
         return out
 
     def nontrivial_key(self, case):
@@ -531,7 +550,8 @@ class C40(Check):
             return None
         if kind == "cinit":
             nb, cpus = int(w[1]), sorted(set(int(c) for c in w[3].split(",")))
-            want = len(cpus) if nb <= 0 or nb > len(cpus) else nb
+            cap = int(w[4]) if len(w) > 4 and int(w[4]) > 0 else len(cpus)       # runtime_num_cores
+            want = cap if nb <= 0 or nb > cap else nb
             if crashed:
                 return "cpuset-crash: parsec_init died under the process cpuset {%s} (%s)" % (w[3], obs[:20])
             m = re.match(r"vps=(-?\d+) total=(-?\d+) \|(.*)$", obs)
@@ -543,6 +563,8 @@ class C40(Check):
                     w[3], nb, m.group(1), m.group(2), len(ths), want)
             for t, th in enumerate(ths):
                 core, _, aff = th.partition(":")
+                if int(core) == -1 and want > len(cpus) and aff == "ok":
+                    continue                 # more threads than cores: a thread may stay unbound (inside the process cpuset)
                 if int(core) not in cpus:
                     return "cpuset-escape: thread %d is assigned core %s, outside the process cpuset {%s}" % (t, core, w[3])
                 if aff != "ok":
